@@ -1,12 +1,12 @@
 /-
 Phase 5 of `flush` (`xmitOne`) as a decision (`cause`) followed by a re-timing of the segment and an
-emission into the output buffer; the wire stream of a flush buffer.  Core Lean only.
+emission into the output buffer; the liveWire stream of a flush buffer.  Core Lean only.
 Used by C02 (retx_armed, fastack_cleared), C18 (segment_rto_lower, resend_causes).
 -/
 import KcpVerif.Model.Kcp
 
-namespace KcpVerif.Kcp
-open KcpVerif KcpVerif.Gen
+namespace KcpVerif.Live
+open KcpVerif KcpVerif.Gen KcpVerif.Kcp
 
 /-- why phase 5 (re)transmits an un-acked segment; `none` = it does not -/
 inductive Cause where
@@ -82,16 +82,16 @@ theorem xmitOne_eq (now resent : U32) (wnd : BitVec 16) (una : U32) (newSegs : N
           · simp only [if_pos h4, reduceCtorEq, ↓reduceIte, or_self, Nat.add_zero]; rfl
           · simp only [if_neg h4, reduceCtorEq, ↓reduceIte, or_self, Nat.add_zero]; rfl
 
-/-! ### the wire stream of a flush buffer -/
+/-! ### the liveWire stream of a flush buffer -/
 
 /-- everything handed to `output` so far followed by what is still in `buffer` -/
-def Fl.wire (f : Fl) : Bytes := f.outs.flatten ++ f.cur
+def _root_.KcpVerif.Kcp.Fl.liveWire (f : Fl) : Bytes := f.outs.flatten ++ f.cur
 
-/-- `g` continues `f`: same connection fields except possibly `state`, the wire stream only grew,
+/-- `g` continues `f`: same connection fields except possibly `state`, the liveWire stream only grew,
 a panic stays -/
 structure Fl.Ext (f g : Fl) : Prop where
   k     : g.k = { f.k with state := g.k.state }
-  wire  : ∃ t, g.wire = f.wire ++ t
+  liveWire  : ∃ t, g.liveWire = f.liveWire ++ t
   panic : f.panic = true → g.panic = true
 
 theorem Fl.Ext.refl (f : Fl) : Fl.Ext f f := ⟨rfl, ⟨[], by simp⟩, id⟩
@@ -99,8 +99,8 @@ theorem Fl.Ext.refl (f : Fl) : Fl.Ext f f := ⟨rfl, ⟨[], by simp⟩, id⟩
 theorem Fl.Ext.trans {f g h : Fl} (a : Fl.Ext f g) (b : Fl.Ext g h) : Fl.Ext f h := by
   refine ⟨?_, ?_, fun p => b.panic (a.panic p)⟩
   · rw [b.k, a.k]
-  · obtain ⟨t, ht⟩ := a.wire
-    obtain ⟨u, hu⟩ := b.wire
+  · obtain ⟨t, ht⟩ := a.liveWire
+    obtain ⟨u, hu⟩ := b.liveWire
     exact ⟨t ++ u, by rw [hu, ht, List.append_assoc]⟩
 
 theorem Fl.makeSpace_k (f : Fl) (n : Nat) : (f.makeSpace n).k = f.k := by
@@ -109,8 +109,8 @@ theorem Fl.makeSpace_k (f : Fl) (n : Nat) : (f.makeSpace n).k = f.k := by
 theorem Fl.makeSpace_panic (f : Fl) (n : Nat) : (f.makeSpace n).panic = f.panic := by
   unfold Fl.makeSpace; split <;> rfl
 
-theorem Fl.makeSpace_wire (f : Fl) (n : Nat) : (f.makeSpace n).wire = f.wire := by
-  unfold Fl.makeSpace Fl.wire; split <;> simp
+theorem Fl.makeSpace_wire (f : Fl) (n : Nat) : (f.makeSpace n).liveWire = f.liveWire := by
+  unfold Fl.makeSpace Fl.liveWire; split <;> simp
 
 theorem Fl.putHdr_k (f : Fl) (h : Bytes) : (f.putHdr h).k = f.k := by
   unfold Fl.putHdr; split <;> rfl
@@ -118,20 +118,20 @@ theorem Fl.putHdr_k (f : Fl) (h : Bytes) : (f.putHdr h).k = f.k := by
 theorem Fl.putData_k (f : Fl) (h : Bytes) : (f.putData h).k = f.k := by
   unfold Fl.putData; split <;> rfl
 
-/-- `putHdr` either appends the header to the wire stream or panics -/
+/-- `putHdr` either appends the header to the liveWire stream or panics -/
 theorem Fl.putHdr_wire (f : Fl) (h : Bytes) (hp : (f.putHdr h).panic = false) :
-    (f.putHdr h).wire = f.wire ++ h ∧ f.panic = false := by
+    (f.putHdr h).liveWire = f.liveWire ++ h ∧ f.panic = false := by
   unfold Fl.putHdr at hp ⊢
   split
   · rename_i hc; rw [if_pos hc] at hp; simp at hp
-  · rename_i hc; rw [if_neg hc] at hp; exact ⟨by simp [Fl.wire], hp⟩
+  · rename_i hc; rw [if_neg hc] at hp; exact ⟨by simp [Fl.liveWire], hp⟩
 
 theorem Fl.putData_wire (f : Fl) (h : Bytes) (hp : (f.putData h).panic = false) :
-    (f.putData h).wire = f.wire ++ h ∧ f.panic = false := by
+    (f.putData h).liveWire = f.liveWire ++ h ∧ f.panic = false := by
   unfold Fl.putData at hp ⊢
   split
   · rename_i hc; rw [if_pos hc] at hp; simp at hp
-  · rename_i hc; rw [if_neg hc] at hp; exact ⟨by simp [Fl.wire], hp⟩
+  · rename_i hc; rw [if_neg hc] at hp; exact ⟨by simp [Fl.liveWire], hp⟩
 
 theorem Fl.makeSpace_ext (f : Fl) (n : Nat) : Fl.Ext f (f.makeSpace n) :=
   ⟨by rw [Fl.makeSpace_k], ⟨[], by rw [Fl.makeSpace_wire]; simp⟩, by rw [Fl.makeSpace_panic]; exact id⟩
@@ -139,16 +139,16 @@ theorem Fl.makeSpace_ext (f : Fl) (n : Nat) : Fl.Ext f (f.makeSpace n) :=
 theorem Fl.putHdr_ext (f : Fl) (h : Bytes) : Fl.Ext f (f.putHdr h) := by
   unfold Fl.putHdr
   split
-  · exact ⟨rfl, ⟨[], by simp [Fl.wire]⟩, fun _ => rfl⟩
-  · exact ⟨rfl, ⟨h, by simp [Fl.wire]⟩, id⟩
+  · exact ⟨rfl, ⟨[], by simp [Fl.liveWire]⟩, fun _ => rfl⟩
+  · exact ⟨rfl, ⟨h, by simp [Fl.liveWire]⟩, id⟩
 
 theorem Fl.putData_ext (f : Fl) (h : Bytes) : Fl.Ext f (f.putData h) := by
   unfold Fl.putData
   split
-  · exact ⟨rfl, ⟨[], by simp [Fl.wire]⟩, fun _ => rfl⟩
-  · exact ⟨rfl, ⟨h, by simp [Fl.wire]⟩, id⟩
+  · exact ⟨rfl, ⟨[], by simp [Fl.liveWire]⟩, fun _ => rfl⟩
+  · exact ⟨rfl, ⟨h, by simp [Fl.liveWire]⟩, id⟩
 
-/-- the bytes of one segment on the wire -/
+/-- the bytes of one segment on the liveWire -/
 def segBytes (s : Seg) : Bytes :=
   encodeHdr s.conv s.cmd s.frg s.wnd s.ts s.sn s.una s.data.length ++ s.data
 
@@ -159,19 +159,19 @@ theorem emit_ext (f : Fl) (s : Seg) : Fl.Ext f (emit f s) := by
   unfold emit
   simp only []
   split
-  · exact ⟨by rw [h1.k], h1.wire, h1.panic⟩
+  · exact ⟨by rw [h1.k], h1.liveWire, h1.panic⟩
   · exact h1
 
-/-- a segment emitted without panic is on the wire, header then data -/
+/-- a segment emitted without panic is on the liveWire, header then data -/
 theorem emit_wire (f : Fl) (s : Seg) (hp : (emit f s).panic = false) :
-    (emit f s).wire = f.wire ++ segBytes s ∧ f.panic = false := by
+    (emit f s).liveWire = f.liveWire ++ segBytes s ∧ f.panic = false := by
   have hp' : (((f.makeSpace (IKCP_OVERHEAD + s.data.length)).putHdr
       (encodeHdr s.conv s.cmd s.frg s.wnd s.ts s.sn s.una s.data.length)).putData s.data).panic = false := by
     unfold emit at hp; simp only [] at hp; split at hp <;> exact hp
   have h3 := Fl.putData_wire _ _ hp'
   have h2 := Fl.putHdr_wire _ _ h3.2
-  have hw : (emit f s).wire = (((f.makeSpace (IKCP_OVERHEAD + s.data.length)).putHdr
-      (encodeHdr s.conv s.cmd s.frg s.wnd s.ts s.sn s.una s.data.length)).putData s.data).wire := by
+  have hw : (emit f s).liveWire = (((f.makeSpace (IKCP_OVERHEAD + s.data.length)).putHdr
+      (encodeHdr s.conv s.cmd s.frg s.wnd s.ts s.sn s.una s.data.length)).putData s.data).liveWire := by
     unfold emit; simp only []; split <;> rfl
   refine ⟨?_, by rw [← Fl.makeSpace_panic]; exact h2.2⟩
   rw [hw, h3.1, h2.1, Fl.makeSpace_wire, segBytes, List.append_assoc]
@@ -254,7 +254,7 @@ structure FoldSpec (l : List Seg) (st r : XmitSt) : Prop where
     itimediff (segAfter now resent wnd una newSegs st.f.k.rx_rto st.f.k.nodelay s).resendts now > 0 →
     r.next ≤ BitVec.ofInt 32 (itimediff (segAfter now resent wnd una newSegs st.f.k.rx_rto st.f.k.nodelay s).resendts now)
   sent : ∀ s ∈ l, s.acked = false → cause now resent newSegs s ≠ .none → r.f.panic = false →
-    ∃ pre post, r.f.wire = pre ++ segBytes (segAfter now resent wnd una newSegs st.f.k.rx_rto st.f.k.nodelay s) ++ post
+    ∃ pre post, r.f.liveWire = pre ++ segBytes (segAfter now resent wnd una newSegs st.f.k.rx_rto st.f.k.nodelay s) ++ post
 
 theorem foldXmit_spec (l : List Seg) (st : XmitSt) :
     FoldSpec now resent wnd una newSegs l st (l.foldl (xmitOne now resent wnd una newSegs) st) := by
@@ -287,9 +287,9 @@ theorem foldXmit_spec (l : List Seg) (st : XmitSt) :
           | false => rfl
           | true => rw [h1.ext.panic hq] at hp; exact absurd hp (by simp)
         rw [xmitOne_f, if_neg (by simp [ha, hc])] at hp1
-        obtain ⟨t, ht⟩ := h1.ext.wire
+        obtain ⟨t, ht⟩ := h1.ext.liveWire
         rw [xmitOne_f, if_neg (by simp [ha, hc]), (emit_wire _ _ hp1).1] at ht
-        exact ⟨st.f.wire, t, ht⟩
+        exact ⟨st.f.liveWire, t, ht⟩
       · exact h1s s hs ha hc hp
 end
 
@@ -439,4 +439,4 @@ theorem mem_zip_self {α : Type} (l : List α) (p : α × α) (h : p ∈ l.zip l
     · rfl
     · exact ih h
 
-end KcpVerif.Kcp
+end KcpVerif.Live
